@@ -1,3 +1,4 @@
+from collections.abc import Sized
 from typing import TypeVar
 
 from pyrsistent import PDeque, pdeque  # pylint: disable=unused-import
@@ -36,7 +37,7 @@ class PersistentQueue(IPersistentList[T], IWithMeta, ILispObject):
     def __eq__(self, other):
         if self is other:
             return True
-        if hasattr(other, "__len__") and len(self) != len(other):
+        if isinstance(other, Sized) and len(self) != len(other):
             return False
         return seq_equals(self, other)
 
